@@ -52,8 +52,9 @@ def probe_literal(pr, st, r):
 def world_head(wd, res, eps_hex, prefix):
     nums = clist(["(%s, %s)" % (cstr(k), chex(float.fromhex(v))) for k, v in sorted(res["nums"].items())])
     objs = clist(["(%s, %s)" % (cstr(n), cstr(t)) for n, t in wd["objects"]])
-    return "%s_text := %s; %s_nums := %s; %s_eps := %s; %s_objs := %s" % (
-        prefix, cstr(wd["domain_text"]), prefix, nums, prefix, chex(float.fromhex(eps_hex)), prefix, objs)
+    return "%s_text := %s; %s_nums := %s; %s_eps := %s; %s_objs := %s; %s_noobjs := %s" % (
+        prefix, cstr(wd["domain_text"]), prefix, nums, prefix, chex(float.fromhex(eps_hex)), prefix, objs, prefix,
+        cbool(bool(wd.get("noobjs"))))
 
 
 def seq_literal(wd, sq, r):
@@ -209,7 +210,7 @@ def build_seqs(rng, w, objs, n_states, tier, calls_per_action=2, only=None, call
                                  "inner_seed": 0 if k is None else rng.randint(1, 10 ** 6), "kind": kind,
                                  "steps": seq_steps(rng, n_states, kind, rng.choice([3, 4] if kind == "chain" else [3, 4, 5])),
                                  "d40_class": d40_class(a["eff"]), "qconst": ranges_over_constant(w, a),
-                                 "shape": action_shape(a)})
+                                 "shadow": shadows(a), "shape": action_shape(a)})
     return seqs
 
 
@@ -224,8 +225,10 @@ def guard_calls(rng, w, objs, a, limit):
 
 
 def build_world(rng, w, tier, n_states, calls_per_action, name="dom", noise=True, stream="random", seq_only=None,
-                seq_calls=2, calls_fn=None):
-    objs = G.gen_objects(rng, w)
+                seq_calls=2, calls_fn=None, objs=None, noobjs=False, table=None):
+    """objs: the problem's object table (default: 2-3 objects of random types; [] = a problem without objects);
+    noobjs: every Operator is built with problem_objects=None; table: the name of the boundary class (evidence only)"""
+    objs = G.gen_objects(rng, w) if objs is None else objs
     text = G.render(w.domain_tree(name), rng, noise)
     states, ptexts, probes = [], [], []
     for si in range(n_states):
@@ -240,11 +243,12 @@ def build_world(rng, w, tier, n_states, calls_per_action, name="dom", noise=True
                                    "uperm": None if k is None else rng.randrange(max(1, n_perms(nuniv))),
                                    "inner_seed": 0 if k is None else rng.randint(1, 10 ** 6),
                                    "klass": None, "d40_class": d40_class(a["eff"]), "qconst": ranges_over_constant(w, a),
-                                   "shape": {"nwhen": nwhen, "nuniv": nuniv,
+                                   "shadow": shadows(a), "shape": {"nwhen": nwhen, "nuniv": nuniv,
                                              "numeric": sum(1 for x in flatten(a["eff"]) if x in ("assign", "increase", "decrease"))}})
     return {"domain_text": text, "objects": objs, "states": states, "problem_texts": ptexts, "probes": probes,
             "seqs": build_seqs(rng, w, objs, n_states, tier, calls_per_action=seq_calls, only=seq_only, calls_fn=calls_fn),
-            "stream": stream, "features": sorted(w.features), "witness_of": None, "compact": False}
+            "stream": stream, "features": sorted(w.features), "witness_of": None, "compact": False, "noobjs": bool(noobjs),
+            "table": table}
 
 
 def flatten(t):
@@ -488,6 +492,130 @@ def plant_inconsistent_univ(rng, w):
     return True
 
 
+# ----- SHADOWING: a quantified variable that has the name of an action parameter / of an enclosing quantified variable.
+# Inside the quantifier the inner binding counts (the object being ranged over), outside of it the parameter keeps its meaning.
+def quantifier_nodes(t, scope, out):
+    """every ['forall', [v, '-', ty], body] node of a tree with the names bound around it: [(node, [(name, type)])]"""
+    if isinstance(t, list):
+        if t and t[0] == "forall" and len(t) >= 3 and isinstance(t[1], list) and len(t[1]) == 3:
+            out.append((t, list(scope)))
+            quantifier_nodes(t[2], scope + [(t[1][0], t[1][2])], out)
+        else:
+            for x in t:
+                quantifier_nodes(x, scope, out)
+    return out
+
+
+def rename_bound(t, old, new):
+    """rename the occurrences of old that the quantifier binds (an inner quantifier binding old again keeps its own)"""
+    if isinstance(t, str):
+        return new if t == old else t
+    if t and t[0] == "forall" and len(t) >= 3 and isinstance(t[1], list) and t[1] and t[1][0] == old:
+        return t
+    return [rename_bound(x, old, new) for x in t]
+
+
+def plant_shadow(rng, w, how_many=None, allow_new_param=True):
+    """rename bound variables of the quantifiers in the actions' EFFECTS (universal effects, quantifiers inside 'when' /
+    'forall-when' conditions) - and now and then of the precondition - to the name of an action parameter or of an enclosing
+    quantified variable.  No capture: the chosen name does not occur in the quantifier's body, so the action means what it
+    meant before the renaming.  When no parameter is free for it, a parameter is added to the action."""
+    done = 0
+    actions = list(w.actions)
+    rng.shuffle(actions)
+    for a in actions:
+        nodes = quantifier_nodes(a["eff"], list(a["params"]), [])
+        if rng.random() < 0.3:
+            nodes += quantifier_nodes(a["pre"], list(a["params"]), [])
+        rng.shuffle(nodes)
+        for q, scope in nodes:
+            if how_many is not None and done >= how_many:
+                return done
+            v, ty, body = q[1][0], q[1][2], q[2]
+            if any(v == n for n, _ in scope):
+                continue                                     # already shadows something
+            used = set(flatten(body))
+            free = [(n, t) for n, t in scope if n not in used]
+            outer = [(n, t) for n, t in free if all(n != pn for pn, _ in a["params"])]
+            inrange = [(n, t) for n, t in free if w.is_sub(t, ty)]        # the call argument is itself in the range
+            if outer and rng.random() < 0.6:
+                new, kind = rng.choice(outer)[0], "outer-variable"
+            elif inrange and rng.random() < 0.8:
+                new, kind = rng.choice(inrange)[0], "parameter"
+            elif allow_new_param and (not free or rng.random() < 0.5):
+                new = "?x%d" % len(a["params"])
+                if any(new == n for n, _ in a["params"]) or new in used or new in set(flatten(a["eff"])) | set(flatten(a["pre"])):
+                    continue
+                subs = [t for t in w.all_types() if w.is_sub(t, ty)]
+                a["params"] = list(a["params"]) + [(new, rng.choice([ty, ty, rng.choice(subs), rng.choice(w.all_types())]))]
+                kind = "parameter"
+            elif free:
+                new = rng.choice(free)[0]
+                kind = "parameter" if any(new == pn for pn, _ in a["params"]) else "outer-variable"
+            else:
+                continue
+            q[2] = rename_bound(body, v, new)
+            q[1][0] = new
+            w.features.add("shadow:" + kind)
+            done += 1
+    return done
+
+
+def shadows(a):
+    """does some quantifier of the action's effects bind a name that is already bound around it"""
+    return any(any(q[1][0] == n for n, _ in scope) for q, scope in quantifier_nodes(a["eff"], list(a["params"]), []))
+
+
+# ----- BOUNDARY OBJECT TABLES: a problem without objects (quantifiers then range over the constants alone), a quantified type
+# that nothing inhabits, an Operator built without any object table
+TABLES = ["empty+constants", "empty-constants", "uninhabited", "no-table"]
+
+
+def add_constant(w, ty):
+    name = "k%d" % len(w.consts)
+    while any(name == c for c, _ in w.consts):
+        name += "x"
+    w.consts.append((name, ty))
+    return name
+
+
+def boundary_table(rng, w, mode):
+    """-> (objects, no-table flag) for the world, or None when the world cannot carry the class.  Constants are only ever ADDED
+    (a constant may occur in the actions' bodies)."""
+    qtys = [ty for a in w.actions for ty in quantified_types(a["eff"])]
+    if not qtys:
+        return None
+    if mode == "no-table":
+        return G.gen_objects(rng, w), True
+    if mode == "empty+constants":
+        ty = rng.choice(qtys)
+        subs = [t for t in w.all_types() if w.is_sub(t, ty)]
+        for _ in range(rng.choice([1, 2, 2])):
+            add_constant(w, rng.choice(subs))
+        for a in w.actions:
+            for _, pt in a["params"]:
+                if not any(w.is_sub(ct, pt) for _, ct in w.consts):
+                    add_constant(w, pt)
+        w.features.add("table:empty+constants")
+        return [], False
+    # a quantified type without any inhabitant
+    free = [ty for ty in qtys if ty != "object" and not any(w.is_sub(ct, ty) for _, ct in w.consts)]
+    if not free:
+        return None
+    ty = rng.choice(free)
+    outside = [t for t in w.all_types() if not w.is_sub(t, ty)]
+    if mode == "empty-constants":
+        for a in w.actions:
+            for _, pt in a["params"]:
+                if not w.is_sub(pt, ty) and not any(w.is_sub(ct, pt) for _, ct in w.consts):
+                    add_constant(w, pt)
+        w.features.add("table:empty-constants")
+        return [], False
+    objs = [("o%d" % i, rng.choice(outside)) for i in range(rng.randint(1, 3))]
+    w.features.add("table:uninhabited")
+    return objs, False
+
+
 # ----- the small scope: one action over {p/1, q/0, f/1, h/0}, types u < t, objects o0 - t, o1 - u
 XS_PRIMS = [["p", "?x"], ["not", ["p", "?x"]], ["q"], ["not", ["q"]], ["increase", ["h"], "1"],
             ["assign", ["h"], ["f", "?x"]], ["decrease", ["f", "?x"], ["h"]]]
@@ -497,6 +625,10 @@ XS_WHEN_RES = [["q"], ["not", ["q"]], ["not", ["p", "?x"]], ["increase", ["h"], 
                ["and", ["p", "?x"], ["assign", ["f", "?x"], "0"]]]
 XS_ZCONDS = [["p", "?z"], ["not", ["=", "?z", "?x"]], ["and", ["p", "?z"], [">", ["f", "?z"], ["h"]]]]
 XS_ZRES = [["not", ["p", "?z"]], ["p", "?z"], ["increase", ["f", "?z"], "1"], ["q"]]
+# the bound variable has the NAME OF THE PARAMETER ?x: inside the quantifier ?x is the object ranged over, outside the argument
+XS_SHADOW_CONDS = [["p", "?x"], ["and", ["p", "?x"], [">", ["f", "?x"], ["h"]]]]
+XS_SHADOW_RES = [["not", ["p", "?x"]], ["increase", ["f", "?x"], "1"]]
+XS_SHADOW_WHEN_RES = [["q"], ["not", ["p", "?x"]]]
 XS_OBJS = [("o0", "t"), ("o1", "u")]
 XS_ATOMS = [("p", ("o0",)), ("p", ("o1",)), ("q", ())]
 XS_FKEYS = [("f", ("o0",)), ("f", ("o1",)), ("h", ())]
@@ -510,10 +642,29 @@ def xs_items():
     return items
 
 
+def xs_shadow_items():
+    items = [("forall", ["forall", ["?x", "-", ty], ["when", c, r]]) for ty in ("t", "u") for c in XS_SHADOW_CONDS for r in XS_SHADOW_RES]
+    items += [("when", ["when", ["forall", ["?x", "-", ty], ["and", ["p", "?x"]]], r]) for ty in ("t", "u") for r in XS_SHADOW_WHEN_RES]
+    return items
+
+
 def xs_bodies():
     items = xs_items()
     out = [[i] for i in items]
     out += [[a, b] for a, b in itertools.combinations(items, 2)]
+    return out
+
+
+def xs_shadow_bodies():
+    """every shadowing item alone, with every other shadowing item, with every primitive effect and with every 4th 'when' /
+    'forall-when' item of the small scope"""
+    items, sh = xs_items(), xs_shadow_items()
+    prims = [i for i in items if i[0] == "prim"]
+    rest = [i for i in items if i[0] != "prim"]
+    out = [[i] for i in sh]
+    out += [[a, b] for a, b in itertools.combinations(sh, 2)]
+    out += [[a, b] for a in sh for b in prims]
+    out += [[a, b] for k, a in enumerate(sh) for j, b in enumerate(rest) if (j + k) % 4 == 0]
     return out
 
 
@@ -709,7 +860,57 @@ def generate(rng, tier):
         if ok:
             worlds.append(build_world(rng, w, tier, n_states=2, calls_per_action=3, stream="inconsistent"))
             k += 1
-    bodies = xs_bodies()
+    # SHADOWING: quantified variables of the effects named like an action parameter / like an enclosing quantified variable, on top
+    # of every kind of world that has quantifiers in its effects; three objects and three states, so that objects other than the
+    # call's argument satisfy (and fail) the quantified conditions
+    k, tries = 0, 0
+    while k < max(8, n // 4) and tries < 40 * n:
+        tries += 1
+        w = G.gen_world(rng, max_actions=2)
+        base = k % 4
+        seq_only = None
+        if base == 1:
+            seq_only = [plant_read_write(rng, w)["name"]]
+        elif base == 2:
+            if not plant_when_forall(rng, w):
+                continue
+        elif base == 3:
+            if rng.random() < 0.5:
+                plant_when_forall(rng, w)
+            if not plant_quantified_constant(rng, w):
+                continue
+        if not plant_shadow(rng, w):
+            continue
+        if not any(shadows(a) for a in w.actions):
+            continue
+        worlds.append(build_world(rng, w, tier, n_states=3, calls_per_action=3, stream="shadow", seq_only=seq_only,
+                                  objs=G.gen_objects(rng, w, n=rng.choice([3, 3, 4]))))
+        k += 1
+    # BOUNDARY OBJECT TABLES: a problem without objects, with and without constants of the quantified type; a quantified type that
+    # nothing inhabits; an Operator built without an object table (problem_objects=None, as against the empty table)
+    for mode in TABLES:
+        k, tries = 0, 0
+        while k < max(3, n // 8) and tries < 40 * n:
+            tries += 1
+            w = G.gen_world(rng, max_actions=2)
+            seq_only = None
+            if k % 3 == 1:
+                seq_only = [plant_read_write(rng, w)["name"]]
+            elif k % 3 == 2:
+                plant_when_forall(rng, w)
+            if rng.random() < 0.25:
+                plant_shadow(rng, w, how_many=1)
+            tab = boundary_table(rng, w, mode)
+            if tab is None:
+                continue
+            objs, noobjs = tab
+            wd = build_world(rng, w, tier, n_states=2, calls_per_action=3, stream="object-table", seq_only=seq_only, objs=objs,
+                             noobjs=noobjs, table=mode)
+            if not any(p.get("shape", {}).get("nuniv") or p.get("d40_class") for p in wd["probes"]):
+                continue                                  # no call of an action with a quantifier in its effects
+            worlds.append(wd)
+            k += 1
+    bodies = xs_bodies() + xs_shadow_bodies()
     if tier == "quick":
         # a fixed core (delete+add of one atom in one group, a 'when' against an unconditional effect, two foralls,
         # numeric read-after-write) plus a random sample
@@ -723,7 +924,9 @@ def generate(rng, tier):
                 [it(["forall", ["?z", "-", "t"], ["when", ["p", "?z"], ["not", ["p", "?z"]]]]),
                  it(["forall", ["?z", "-", "u"], ["when", ["not", ["=", "?z", "?x"]], ["increase", ["f", "?z"], "1"]]])],
                 [it(["when", ["p", "?x"], ["not", ["p", "?x"]]]), it(["when", ["not", ["q"]], ["q"]])]]
-        bodies = core + rng.sample(bodies, 18)
+        sh = xs_shadow_items()
+        core += [[sh[0], it(["q"])], [sh[5], it(["decrease", ["f", "?x"], ["h"]])], [sh[9]], [sh[2], sh[11]]]
+        bodies = core + rng.sample(xs_bodies(), 16) + rng.sample(xs_shadow_bodies(), 2)
     for b in bodies:
         worlds.append(xs_world(rng, b, tier))
     return worlds, (tier == "thorough")
@@ -731,7 +934,7 @@ def generate(rng, tier):
 
 # ------------------------------------------------------------------------------------------------ the check
 def run_worlds(worlds, hashseed):
-    jobs = [{"op": "c03.world", "domain_text": wd["domain_text"], "states": wd["problem_texts"],
+    jobs = [{"op": "c03.world", "domain_text": wd["domain_text"], "states": wd["problem_texts"], "noobjs": bool(wd.get("noobjs")),
              "probes": [{k: p[k] for k in ("action", "args", "state", "perm", "uperm", "inner_seed")} for p in wd["probes"]],
              "seqs": [{k: q[k] for k in ("action", "args", "start", "perm", "uperm", "inner_seed", "steps")} for q in wd.get("seqs", [])]}
             for wd in worlds]
@@ -825,7 +1028,8 @@ def run(args):
                 wd, res = worlds[wi], results[wi]
                 light = wd.get("_light")
                 if light is None:
-                    light = wd["_light"] = {"domain_text": wd["domain_text"], "objects": wd["objects"], "stream": wd["stream"]}
+                    light = wd["_light"] = {"domain_text": wd["domain_text"], "objects": wd["objects"], "stream": wd["stream"],
+                                            "noobjs": bool(wd.get("noobjs"))}
                 for pi, (pr, r) in enumerate(zip(wd["probes"], res["probes"])):
                     for kind in ("succ", "forced"):
                         ch = verdicts[pos]
@@ -840,13 +1044,16 @@ def run(args):
                             one = {"domain_text": wd["domain_text"], "objects": wd["objects"], "states": [wd["states"][pr["state"]]],
                                    "problem_texts": [wd["problem_texts"][pr["state"]]],
                                    "probes": [dict(pr, state=0, call=0)], "stream": wd["stream"], "features": wd["features"],
-                                   "witness_of": wd.get("witness_of"), "compact": False}
+                                   "witness_of": wd.get("witness_of"), "compact": False, "noobjs": bool(wd.get("noobjs")),
+                                   "table": wd.get("table")}
                             inp = {"world": one, "unit": kind, "hashseed": hs, "implementation": r}
+                        # a failing probe is explained (coq_explain of its replay file) on a world that holds this probe alone
+                        lit_case = lit if ch == "." else full_literal(one, {"nums": res["nums"], "probes": [r], "seqs": []}, cfg["epsilon"])
                         tr = r.get("trace", {})
                         nontrivial = hs == hashseeds[0] and ("value" in r.get("succ", {})) and (
                             tr.get("when_fired", 0) + tr.get("when_not", 0) + tr.get("univ_fired", 0) + tr.get("univ_not", 0) > 0
                             or tr.get("numeric_applied", 0) > 0 or tr.get("discrete_applied", 0) > 1)
-                        all_cases.append({"lit": lit, "input": inp, "nontrivial": nontrivial,
+                        all_cases.append({"lit": lit_case, "input": inp, "nontrivial": nontrivial,
                                           "witness_of": wd.get("witness_of"), "klass": pr.get("klass")})
                         verdict_list.append(ch)
                 for sq, r in zip(wd.get("seqs", []), res.get("seqs", [])):
@@ -870,7 +1077,8 @@ def run(args):
                                        steps=[dict(st, src=None if st["src"] is None else ren[st["src"]]) for st in sq["steps"]])
                             one = {"domain_text": wd["domain_text"], "objects": wd["objects"], "states": [wd["states"][j] for j in used],
                                    "problem_texts": [wd["problem_texts"][j] for j in used], "probes": [], "seqs": [sq1],
-                                   "stream": wd["stream"], "features": wd["features"], "witness_of": wd.get("witness_of"), "compact": False}
+                                   "stream": wd["stream"], "features": wd["features"], "witness_of": wd.get("witness_of"), "compact": False,
+                                   "noobjs": bool(wd.get("noobjs")), "table": wd.get("table")}
                             inp = {"world": one, "unit": kind, "hashseed": hs, "implementation": r,
                                    "what": "one Operator object, the calls of 'steps' in turn (src null = applied to the state the previous "
                                            "call returned, src j = to a fresh copy of state j); unit seq = the states read back at once, "
@@ -905,6 +1113,27 @@ def run(args):
                         if pr.get("perm") is not None:
                             orders_seen.add((len(r.get("order", [])), tuple(r.get("order", [])), tuple(r.get("uorder", []))))
                         stats["d40_class_probes"] += 1 if pr.get("d40_class") else 0
+                        tr0 = r.get("trace") or {}
+                        if pr.get("shadow"):
+                            sh = stats.setdefault("shadowing", {"probes_of_an_action_with_a_shadowing_quantifier": 0,
+                                                                "...with_a_forall_when_instance_fired": 0,
+                                                                "...with_instances_fired_and_not_fired": 0,
+                                                                "...with_a_when_evaluated": 0})
+                            sh["probes_of_an_action_with_a_shadowing_quantifier"] += 1
+                            sh["...with_a_forall_when_instance_fired"] += 1 if tr0.get("univ_fired") else 0
+                            sh["...with_instances_fired_and_not_fired"] += 1 if tr0.get("univ_fired") and tr0.get("univ_not") else 0
+                            sh["...with_a_when_evaluated"] += 1 if tr0.get("when_fired") or tr0.get("when_not") else 0
+                        if wd.get("table"):
+                            tb = stats.setdefault("object_tables", {}).setdefault(wd["table"], {
+                                "probes": 0, "returned": 0, "forall_when_instances_fired": 0, "forall_when_instances_not_fired": 0,
+                                "when_fired": 0, "when_not_fired": 0, "refused": 0})
+                            tb["probes"] += 1
+                            tb["returned"] += 1 if "value" in r.get("succ", {}) else 0
+                            tb["refused"] += 1 if r.get("valerr") else 0
+                            tb["forall_when_instances_fired"] += tr0.get("univ_fired", 0)
+                            tb["forall_when_instances_not_fired"] += tr0.get("univ_not", 0)
+                            tb["when_fired"] += tr0.get("when_fired", 0)
+                            tb["when_not_fired"] += tr0.get("when_not", 0)
                         stats["probes_quantifier_over_constant"] = stats.get("probes_quantifier_over_constant", 0) + \
                             (1 if pr.get("qconst") else 0)
                         tr = r.get("trace")
@@ -931,6 +1160,8 @@ def run(args):
                         sqs["sequences_forced_order"] += 1 if sq.get("perm") is not None else 0
                         sqs["sequences_quantifier_over_constant"] = sqs.get("sequences_quantifier_over_constant", 0) + \
                             (1 if sq.get("qconst") else 0)
+                        sqs["sequences_shadowing_quantifier"] = sqs.get("sequences_shadowing_quantifier", 0) + (1 if sq.get("shadow") else 0)
+                        sqs["sequences_boundary_object_table"] = sqs.get("sequences_boundary_object_table", 0) + (1 if wd.get("table") else 0)
                         executed, numeric_exec, prev_refused = 0, 0, False
                         for st, o in zip(sq["steps"], r["steps"]):
                             sqs["calls"] += 1
